@@ -1,8 +1,10 @@
 package objecth
 
 import (
+	"bytes"
 	"fmt"
 	"math/rand"
+	"runtime/debug"
 	"sync"
 	"sync/atomic"
 	"testing"
@@ -39,6 +41,8 @@ type relay struct {
 	late    int
 	dups    int
 	victim  string
+	stale   int    // a queued packet no longer had the bytes it had when it was sent
+	faults  int    // a queued reply could not be read any more (its memory was unmapped)
 	starve  string // name prefix (String form): segment Interests >= 1 under it are always lost
 }
 
@@ -74,7 +78,8 @@ func pktName(b []byte) (kind string, name enc.Name) {
 }
 
 func (f *relayFace) Send(pkt enc.Wire) error {
-	b := pkt.Join() // Join copies
+	b := pkt.Join()                  // NOT a copy for a single-buffer wire: the sender's buffer stays queued here
+	sent := append([]byte(nil), b...) // what was sent
 	rl := f.rl
 	rl.mu.Lock()
 	kind, name := pktName(b)
@@ -129,6 +134,21 @@ func (f *relayFace) Send(pkt enc.Wire) error {
 	peer := f.peer
 	for _, d := range delays {
 		time.AfterFunc(d, func() {
+			// the relay keeps the buffer the sender handed over (Wire.Join does not copy a single-buffer wire), like a
+			// face with a send queue: if that memory is gone when the packet is finally delivered, record it
+			defer func() {
+				if e := recover(); e != nil {
+					rl.mu.Lock()
+					rl.faults++
+					rl.mu.Unlock()
+				}
+			}()
+			debug.SetPanicOnFault(true)
+			if !bytes.Equal(b, sent) {
+				rl.mu.Lock()
+				rl.stale++
+				rl.mu.Unlock()
+			}
 			if peer.running.Load() && peer.onPkt != nil {
 				peer.onPkt(enc.NewBufferReader(b))
 			}
@@ -291,10 +311,33 @@ func runE2ECase(t *testing.T, o *out, r *rand.Rand) {
 			}
 			return true
 		})
+		// while replies are queued in the relay, the producer keeps publishing (other objects): with the on-disk store the
+		// file grows and pages are reused underneath wires that were handed out earlier
+		if kind == "b" && r.Intn(2) == 0 {
+			filler := append(append(enc.Name{}, name...), enc.NewStringComponent(enc.TypeGenericNameComponent, "filler"))
+			for k := 0; k < 3; k++ {
+				time.Sleep(2 * time.Millisecond)
+				fv := uint64(1000*ci + k + 1)
+				prod.Produce(object.ProduceArgs{Name: filler, Content: enc.Wire{genContent(r, 40000+r.Intn(200000))}, Version: &fv})
+			}
+			if r.Intn(2) == 0 {
+				st.st.Remove(filler, true)
+			}
+		}
 		select {
 		case <-done:
 		case <-time.After(30 * time.Minute): // virtual time
 		}
+		rl.mu.Lock()
+		if rl.stale > 0 {
+			o.pf("BAD relay: %d queued packets had changed between Send and delivery (the sender's buffer was overwritten)\n", rl.stale)
+			rl.stale = 0
+		}
+		if rl.faults > 0 {
+			o.pf("BAD relay: %d queued replies could not be read when they were finally delivered (their memory was unmapped)\n", rl.faults)
+			rl.faults = 0
+		}
+		rl.mu.Unlock()
 		mu.Lock()
 		nAtDone := len(obs)
 		mu.Unlock()
